@@ -148,6 +148,9 @@ Proof.
   injection H as <-. reflexivity.
 Qed.
 
+Lemma Ok_inj {A} (x y : A) : Ok x = Ok y -> x = y.
+Proof. intros H. injection H. auto. Qed.
+
 (* ---- _check_uuid / _validate_id, repaired variant, no interoperability ---- *)
 Lemma check_uuid_valid vr s v :
   vr_uuid_canon vr = true -> check_uuid vr s v false = Ok true -> valid_uuid_text v s = true.
@@ -155,14 +158,16 @@ Proof.
   intros Hc H. unfold check_uuid in H. inv_bind H. rewrite Hc in Hb.
   destruct (canonical_uuid_text s) eqn:Ec; cbn [andb negb] in Hb; [|discriminate].
   unfold valid_uuid_text. rewrite Ec. rewrite andb_true_l.
-  rewrite <- (py_uuid_int_canonical s a Ec Ha). injection Hb as Hb. destruct v; exact Hb.
+  rewrite <- (py_uuid_int_canonical s a Ec Ha). cbv zeta.
+  set (vt := uuid_variant_rfc4122 a) in *. set (vn := uuid_version a) in *.
+  apply Ok_inj in Hb. destruct v; [exact Hb | rewrite andb_true_r; exact Hb].
 Qed.
 
 Lemma validate_id_valid vr s v prefix :
   vr_uuid_canon vr = true -> validate_id vr s v (Some prefix) false = Ok tt -> valid_id v (Some prefix) s = true.
 Proof.
   intros Hc H. unfold validate_id in H. unfold valid_id.
-  destruct (ustr_prefix prefix s); simpl in H; try discriminate. simpl.
+  destruct (ustr_prefix prefix s); cbn [negb] in H; try discriminate. rewrite andb_true_l.
   destruct (check_uuid vr (udrop (List.length prefix) s) v false) as [[|]| |] eqn:E; try discriminate.
   eapply check_uuid_valid; eauto.
 Qed.
